@@ -1,6 +1,7 @@
 package props
 
 import (
+	"github.com/caddyserver/caddy/v2/caddyconfig/caddyfile"
 	"bytes"
 	"fmt"
 	"io"
@@ -112,6 +113,38 @@ func runC16(t *testing.T, e *worlds.Env, tier string) (bool, any) {
 		}
 		sample.Commands, sample.Creds = cmds, creds
 		h := &l4socks.Socks5Handler{Commands: cmds, Credentials: creds, BindIP: tp.Pick2("bind-ip", "", "10.0.0.1")}
+		if _, ws := creds["dave "]; !ws && tp.Prob(1, 4, "caddyfile") {
+			// the same configuration written as Caddyfile text and read by the shipped parser
+			q := func(s string) string {
+				return "\"" + strings.ReplaceAll(strings.ReplaceAll(s, "\\", "\\\\"), "\"", "\\\"") + "\""
+			}
+			text := "socks5 {\n"
+			if h.BindIP != "" {
+				text += "\tbind_ip " + q(h.BindIP) + "\n"
+			}
+			if len(cmds) > 0 {
+				text += "\tcommands"
+				for _, c := range cmds {
+					text += " " + q(c)
+				}
+				text += "\n"
+			}
+			var users []string
+			for u := range creds {
+				users = append(users, u)
+			}
+			sort.Strings(users)
+			for _, u := range users {
+				text += "\tcredentials " + q(u) + " " + q(creds[u]) + "\n"
+			}
+			text += "}\n"
+			h2 := &l4socks.Socks5Handler{}
+			if err := h2.UnmarshalCaddyfile(caddyfile.NewTestDispenser(text)); err != nil {
+				panic(fmt.Sprintf("caddyfile %q: %v", text, err))
+			}
+			h = h2
+			sample.Model += "(configured by Caddyfile) "
+		}
 		if err := h.Provision(e.Ctx); err != nil {
 			// the configuration was refused (unknown or blank command names): nothing is served
 			sample.Model = "configuration refused: " + err.Error()
